@@ -7,7 +7,8 @@ MANIFEST = dict(
          "exactly one block that links, meets its proof-of-work oracle, passes the modelled retarget arithmetic "
          "(compact<->target, min/max transition, chain maximum, equal bits off the boundary, testnet rules) and whose "
          "TXOO proof verified with attestations of at least half of the trusted oracles, or the previous filter header "
-         "is all zero / the policy filter downgrades the tag), C13_proof_or_documented_bypass, C13_reject_atomic (Err => "
+         "is all zero / the policy filter downgrades the tag), C13_proof_or_documented_bypass, C13_quorum_counts_distinct_oracles (the quorum depends only on the set of "
+         "attesting keys: repeated attestations of one oracle count once), C13_reject_atomic (Err => "
          "persisted image identical, whole state = state before minus the refused stream), C13_later_request_succeeds "
          "(after any refusal a correct compact add/remove and a correct streamed add are accepted), C13_no_stale_decode "
          "and C13_window_linked (invariants by induction over histories); C13_old_remove_refuted and "
@@ -24,7 +25,8 @@ MANIFEST = dict(
     technique="Coq proof (per-step lemmas lifted to all histories, invariants by induction) + vm_compute correspondence with the Rust implementation",
 )
 
-PINNED = ["C13_advance_only_valid", "C13_proof_or_documented_bypass", "C13_reject_atomic",
+PINNED = ["C13_advance_only_valid", "C13_proof_or_documented_bypass", "C13_quorum_counts_distinct_oracles",
+          "C13_repeated_attestation_refused", "C13_reject_atomic",
           "C13_later_request_succeeds", "C13_no_stale_decode", "C13_window_linked",
           "C13_nonvacuous", "C13_old_remove_refuted", "C13_old_streamed_refuted"]
 
@@ -41,6 +43,9 @@ def _strip(c):
 def _classify(c):
     """class of a monitor hit: the window shortened by a refused removal, or the stale decode state"""
     cls = set()
+    if c.get("invalid_accepted") or c.get("store_violations"):
+        # whatever follows an accepted invalid block is a consequence of it
+        return {"other"}
     for v in c.get("atomicity_violations", []):
         ch = v.get("changed", {})
         if v.get("request", "").startswith("remove") and set(ch) == {"headers"} and \
@@ -136,8 +141,9 @@ def run(res):
         "steps": sum(len(c["ops"]) for c in cases),
         "distinct_nontrivial": len(nontrivial),
         "rule": "seq: restored tracker with window 0,1,2,3,5,98,99,100 (the harness knows 3 more blocks below it), height at "
-                "window, 0, 2013..2016, 4031, 2^32-2, 2^32-1 or random, regtest/testnet, 0-3 trusted oracles (incl. a duplicated "
-                "key), strict or warn filter, deep reorgs allowed or not, tip / previous filter header zeroed, tip bits at, "
+                "window, 0, 2013..2016, 4031, 2^32-2, 2^32-1 or random, regtest/testnet, 0-5 trusted oracles out of 8 (incl. a duplicated "
+                "key), attestation lists with all trusted / exactly the quorum / one distinct oracle below the quorum padded with "
+                "repeats of one attestation up to the quorum, trusted-untrusted mixes, random multisets, shuffled, strict or warn filter, deep reorgs allowed or not, tip / previous filter header zeroed, tip bits at, "
                 "/2, /4, /8 of the parent, 0-2 real channel monitors; 3-12 requests from {valid, streamed in 1-3 chunks, wrong "
                 "prev, bad PoW, 9 other-bits variants (x/2..x*8, around x/4), proof for another block, proof hiding a spend, "
                 "attestation for another previous filter header / height, bad signature, no attestation, mixed filter headers, "
